@@ -156,7 +156,16 @@ def run(tier, replay=None):
             if x.get('k') in ('BinaryOperator', 'CXXOperatorCallExpr') and x.get('op') in ('>', '>=', '<', '<='):
                 c = cmp_sides(x)
                 if len(c) == 2 and is_dense_value(c[0], names) and ir.show(ir.skipcasts(c[1])) in pn:
-                    dense_helpers[f['name']] = (x['op'], pn.index(ir.show(ir.skipcasts(c[1]))))
+                    # normalised to the test that answers "not neighbours at that time": `if (g > f) return false`
+                    # and `return g <= f` are the same helper
+                    op = x['op']
+                    up = ir.parents(f['body']).get(id(x))
+                    while up is not None and up.get('k') in ('ParenExpr', 'ImplicitCastExpr', 'ExprWithCleanups'):
+                        up = ir.parents(f['body']).get(id(up))
+                    if up is not None and up.get('k') == 'ReturnStmt':
+                        op = {'<=': '>', '<': '>=', '>': '<=', '>=': '<'}[op]
+                    if f['name'] not in dense_helpers or ARM_FUNCTIONS.count(f['name']):
+                        dense_helpers[f['name']] = (op, pn.index(ir.show(ir.skipcasts(c[1]))))
 
     def bound_tests(f, dense):
         out = []
@@ -255,11 +264,45 @@ def run(tier, replay=None):
         lists = any(ir.is_call(x) and ir.call_name(x) in ('find', 'count', 'contains') and
                     ir.show(ir.call_receiver(x)).startswith('neighbors[') for x in ir.walk(f['body']))
         ok = marker and lists
+        # the lists are asked only for the one ambiguous value *at a time not before it*: on every path to the look-up
+        # the time test has been taken as "not later"
+        if ok and f['name'] not in ARM_FUNCTIONS:
+            def cl_(x):
+                if ir.is_call(x) and ir.call_name(x) in ('find', 'count', 'contains') and \
+                        ir.show(ir.call_receiver(x)).startswith('neighbors['):
+                    return ['LOOKUP']
+                return []
+            for p_ in paths.enumerate_paths(f, cl_, loop_mode='01', keep_conds=True, cap=20000):
+                timed = False
+                for tag, node in p_.events:
+                    if tag == '?' and not isinstance(node[0], tuple):
+                        def atoms(cc, pol_):
+                            cc = ir.skipcasts(cc)
+                            while cc is not None and (cc.get('k') == 'ParenExpr' or
+                                                      (cc.get('k') == 'UnaryOperator' and cc.get('op') == '!')):
+                                if cc.get('k') == 'UnaryOperator':
+                                    pol_ = not pol_
+                                cc = ir.skipcasts(cc['c'][0])
+                            if cc is None:
+                                return []
+                            if cc.get('k') == 'BinaryOperator' and ((cc.get('op') == '&&' and pol_) or
+                                                                    (cc.get('op') == '||' and not pol_)):
+                                return atoms(cc['c'][0], pol_) + atoms(cc['c'][1], pol_)
+                            return [(cc, pol_)]
+                        for cc, pol_ in atoms(node[0], node[1]):
+                            if cc.get('k') in ('BinaryOperator', 'CXXOperatorCallExpr') and \
+                                    len(cmp_sides(cc)) == 2 and is_dense_value(cmp_sides(cc)[0], names):
+                                if (cc.get('op') in ('>', '>=') and not pol_) or (cc.get('op') in ('<=', '<') and pol_):
+                                    timed = True
+                    elif tag == 'LOOKUP' and not timed:
+                        ok = False
         chk.ob('E4-in-band-marker', '%s compares a value of the dense table with a time and tells the marker never() '
                'from a stored value (%d comparisons)' % (f['name'], len(cmps)), '%s:%s' % (H, cmps[0].get('l')), ok,
                '' if ok else '`%s`: a pair marked "not neighbours" holds never(), which compares like an edge of that '
                'value: with a bound equal to the marker every pair looks adjacent (%s)' % (
-                   ir.show(cmps[0])[:60], 'no test against never()' if not marker else 'the neighbour lists are not asked'),
+                   ir.show(cmps[0])[:60], 'no test against never()' if not marker else (
+                       'the neighbour lists are not asked' if not lists else 'the neighbour lists are asked before the '
+                       'time test: an edge whose value is the marker is reported present at every time')),
                key='E4|%s|in-band-marker' % f['name'])
     chk.expect_count('E4-in-band-marker', 'comparisons of dense-table values with a time', n_dense_cmp, 1)
 
